@@ -381,6 +381,21 @@ pub fn foreign_island(rng: &mut Rng, d: &mut GenDoc, depth: usize, o: &TreeOpts)
 
 fn foreign_node(rng: &mut Rng, d: &mut GenDoc, depth: usize, o: &TreeOpts, svg: bool) {
     let names = if svg { SVG_NAMES } else { MATHML_NAMES };
+    if depth < o.max_depth && rng.chance(1, 12) {
+        // a nested root of the same namespace, explicitly closed, followed by constructs whose
+        // reading depends on still being inside the outer island
+        let root = if svg { "svg" } else { "math" };
+        d.push(FragKind::Foreign, tree_start(rng, root, false).as_bytes());
+        for _ in 0..rng.below(2) {
+            foreign_node(rng, d, depth + 1, o, svg);
+        }
+        d.push(FragKind::Foreign, format!("</{root}>").as_bytes());
+        d.push(FragKind::Cdata, rng.pick(&["<![CDATA[<p> 1 > 0 <b>x</b>]]>", "<![CDATA[a]]>", ""]).as_bytes());
+        if svg && rng.bool() {
+            d.push(FragKind::Foreign, b"<title><b>x</b></title>");
+        }
+        return;
+    }
     match rng.below(10) {
         0 | 1 => d.push(FragKind::Text, b"ft"),
         2 => d.push(FragKind::Cdata, rng.pick(&["<![CDATA[x<y>z]]>", "<![CDATA[]]>", "<![CDATA[a]]b]]>", "<![CDATA[ 1 > 0 <b>not markup</b> ]]>", "<![CDATA[><i a=b>]]>"]).as_bytes()),
@@ -457,6 +472,9 @@ const UNI_SAMPLES: &[&str] = &[
     "é", "ü", "ß", "ж", "я", "Ω", "π", "日", "本", "語", "한", "글", "中", "文", "あ", "ア", "𝄞", "😀",
     "€", "™", "—", "ا", "ש", "ก", "ё", "Ł", "ő", "ı", "ÿ", "\u{a0}", "¿", "漢", "字", "ｶ", "〜", "\u{feff}",
 ];
+
+/// Strings whose windows-125x / KOI8 / ISO-8859 / GBK / EUC encodings are well-formed UTF-8.
+const ACCIDENTAL_UTF8: &[&str] = &["Р°", "Ã©", "Ð°", "Ñ‚", "ВЂ", "模", "Ã¤b", "Â©x", "Р°Р±", "аbc Ã©"];
 
 /// Encode a unicode string in `enc`, dropping what it cannot represent (so the bytes are canonical).
 pub fn encode_lossy_drop(enc: &'static encoding_rs::Encoding, s: &str) -> Vec<u8> {
@@ -564,6 +582,20 @@ pub fn enc_doc(rng: &mut Rng, label: &str, o: &EncOpts) -> GenDoc {
                 d.push(FragKind::StartTag, &v);
                 d.push(FragKind::Text, &enc_text(rng, enc, false));
                 d.push(FragKind::EndTag, b"</p>");
+            }
+            8 if rng.bool() => {
+                // strings whose bytes in a legacy encoding happen to be well-formed UTF-8
+                // ("mojibake pairs"): as a whole comment text, attribute value and attribute name
+                let s = rng.pick(ACCIDENTAL_UTF8);
+                let b = encode_lossy_drop(enc, s);
+                let mut v = b"<!--".to_vec();
+                v.extend_from_slice(&b);
+                v.extend_from_slice(b"--><i title='");
+                v.extend_from_slice(&b);
+                v.extend_from_slice(b"' x");
+                v.extend_from_slice(&b);
+                v.extend_from_slice(b"=v>");
+                d.push(FragKind::StartTag, &v);
             }
             8 => {
                 let mut v = b"<x".to_vec();
